@@ -5,7 +5,7 @@ use crate::rt;
 use pallas_primitives::*;
 
 pub fn run(r: &mut Runner) {
-    rt!(r, "Metadatum", Metadatum, eq, lab(metadata_values(3)));
+    rt!(r, "Metadatum", Metadatum, eq, lab(metadata_values(if r.ctx.thorough { 5 } else { 3 })));
     rt!(r, "Metadata", Metadata, eq, lab(metadata_maps()));
     rt!(r, "Relay", Relay, eq, lab(relays()));
     rt!(r, "RationalNumber", RationalNumber, eq, lab(rationals()));
